@@ -213,6 +213,21 @@ reg('C14', True,
     'optimality (listed).',
     'clang 14 AST/CFG of DubinsStateSpace.cpp and ReedsSheppStateSpace.cpp (88 functions); mod2pi treated as a congruence',
     'algebraic normal forms + symbolic differentiation + finite-domain evaluation over orderings + AST pattern agreement + CFG typestate')
-for _p in ['C15', 'C16',
+reg('C15', True,
+    'Decides the clauses visible in the code: in all nine informed draw routines a result that may be true carries, '
+    'since the last write of the output state, the acceptance test that belongs to how the state was drawn (PHS '
+    'draw: satisfiesBounds; bounds draw: PHS membership on a fresh sub-state or the heuristic-cost test, none while '
+    'the bound is infinite; delegated draw: its verdict; two bounds: the lower-bound disjunction), and the batch '
+    'sampler queues only successful draws; samples in k overlapping hyperspheroids are kept iff uniform01() <= 1/k; '
+    'the heuristic cost, measure, membership and inclusion folds range over all starts / all hyperspheroids; '
+    'unitNBallMeasure == nBallMeasure(N,1), prolateHyperspheroidMeasure == (dT/2)(conj/2)^(N-1) V_N and the PHS '
+    'transformation uses the same conjugate diameter and radii; membership is the strict comparison of the summed '
+    'focal distances with the transverse diameter; the up-to-date flag of the PHS is set only after the data it '
+    'guards; the ball draw uses r*U^(1/n) and feeds ProlateHyperspheroid::transform. Not decided: that the SVD '
+    'rotation maps the first axis to the focal axis, uniformity of the density, the value of the Gamma function '
+    '(listed).',
+    'clang 14 AST/CFG of 7 units (three informed samplers, InformedSampler, ProlateHyperspheroid, RNG, GeometricEquations); Eigen expressions matched by shape only',
+    'path-sensitive typestate over clang CFG + algebraic normal forms (integer division distinguished) + loop-coverage patterns')
+for _p in ['C16',
            'C20']:
     reg(_p, False, '', '', '', PENDING)
